@@ -57,6 +57,27 @@ func registerIntrinsics(in *Interp) {
 	I["vBool"] = func(in *Interp, a []Value, _ ssa.CallInstruction) Value {
 		return in.B.Var(in.nondetName(str(a[0])), sym.BoolSort)
 	}
+	// vProcState(code): a *os.ProcessState whose exit code is the given (symbolic) value
+	I["vProcState"] = func(in *Interp, a []Value, site ssa.CallInstruction) Value {
+		pt := site.Value().Type().(*types.Pointer)
+		c := in.newCell(pt.Elem())
+		if in.procCodes == nil {
+			in.procCodes = map[*Cell]Value{}
+		}
+		in.procCodes[c] = a[0]
+		return Ptr{c}
+	}
+	// vBytesStr(name, n): a string of n bytes, each an arbitrary 7-bit ASCII character
+	I["vBytesStr"] = func(in *Interp, a []Value, _ ssa.CallInstruction) Value {
+		name := str(a[0])
+		n := in.cint(a[1], "vBytesStr length")
+		bs := make([]*sym.Term, n)
+		for i := range bs {
+			v := in.B.Var(in.nondetName(name+"["+strconv.Itoa(i)+"]"), sym.BVSort(8))
+			bs[i] = in.B.BAnd(v, in.B.Const(8, 0x7f))
+		}
+		return in.mkByteStr(bs)
+	}
 	I["vEqStr"] = func(in *Interp, a []Value, _ ssa.CallInstruction) Value {
 		n := in.nondetName(str(a[0]))
 		if in.atomVars == nil {
@@ -217,7 +238,14 @@ func registerIntrinsics(in *Interp) {
 			return in.B.Const(in.WordBits, 0)
 		}
 		k := in.chooseN(make([]*sym.Term, n))
-		in.pathNotes = append(in.pathNotes, fmt.Sprintf("%s=%d", str(a[0]), k))
+		// the same choice point may be passed several times on one path (two Close calls): number the visits
+		name := str(a[0])
+		seq := in.nondetSeq["choice:"+name]
+		in.nondetSeq["choice:"+name] = seq + 1
+		if seq > 0 {
+			name += "#" + strconv.Itoa(seq)
+		}
+		in.pathNotes = append(in.pathNotes, fmt.Sprintf("%s=%d", name, k))
 		return in.B.Const(in.WordBits, uint64(k))
 	}
 	I["vAssume"] = func(in *Interp, a []Value, _ ssa.CallInstruction) Value {
